@@ -94,6 +94,7 @@ def direct_oracles(script, cache_vals, cfg, want):
     tsh.Pins.ridx = 0
     tsh.Pins.now = cfg.now
     mon = Monitor()
+    del tsh.WatchDeque.drops[:]
     mon.install((cfg.max_items, cfg.max_item_size))
     cache_in = {'timestamp': cfg.now, **cache_vals}
     before = str_snapshot(cache_in)
@@ -115,7 +116,7 @@ def direct_oracles(script, cache_vals, cfg, want):
         return {'C07': ['the script did not end within the per-case watchdog (%.0f s)' % tsh.Watch().seconds]}
     tape, stack, cache = tsh._Capture.top
     if 'C07' in want:
-        v = list(mon.violations)
+        v = list(mon.violations) + list(tsh.WatchDeque.drops[:2])
         if isinstance(esc, (RecursionError, MemoryError, SystemError)):
             v.append('interpreter-level failure escaped: ' + type(esc).__name__)
         if v:
